@@ -206,8 +206,18 @@ def emptiness_switches(f, is_collection, len_suffixes=("::len",), empty_suffixes
         if e2[0] == "bin" and e2[1] in ("Eq", "Ne", "Gt", "Ge", "Lt", "Le"):
             op, a, b = e2[1], strip_ref(e2[2]), strip_ref(e2[3])
 
+            def coll_of(x):
+                # the collection behind a slice view of it (`v.as_slice()`, `&v[..]`, `&*v`)
+                x = strip_ref(x)
+                while x[0] == "call" and x[2] and x[1].endswith(("::as_slice", "Deref::deref", "AsRef::as_ref", "::as_mut_slice")):
+                    x = strip_ref(x[2][0])
+                return x
+
             def is_len(x):
-                return x[0] == "call" and x[1].endswith(len_suffixes) and x[2] and is_collection(x[2][0])
+                if x[0] == "call" and x[1].endswith(len_suffixes) and x[2] and (is_collection(x[2][0]) or is_collection(coll_of(x[2][0]))):
+                    return True
+                # slice patterns (`[first, ..]`, `[]`) test the length of the slice in place
+                return x[0] == "un" and x[1] == "PtrMetadata" and is_collection(coll_of(x[2]))
             if is_len(b) and a[0] == "const":
                 a, b = b, a
                 op = {"Gt": "Lt", "Ge": "Le", "Lt": "Gt", "Le": "Ge"}.get(op, op)
